@@ -818,7 +818,7 @@ class Quaternion(Vector):
         """Just for testing and validation."""
 
         m = Matrix3.from_euler(ai, aj, ak, axes)
-        return Quaternion.from_matrixs(m)
+        return Quaternion.from_matrix3(m)
 
 ################################################################################
 # Useful class constants
